@@ -8,14 +8,14 @@ import os, sys
 D = os.path.dirname(os.path.abspath(__file__))
 def cfg(name, **k):
     d=dict(NK=2, MaxOps=3, MaxLag=1, MaxResub=1, LiveLimit=3, Modes='{"rec"}', Kinds='{"fresh"}', Pages='{1, 2}', SSizes='{1, 2}',
-           Filts='{"none"}', Ops='{"pub", "rem", "exp", "sexp", "clear"}', Pres=None, N0s='{0}', Contig='FALSE', DropStale='FALSE', view=True, coded=True, sim=False, noinv=False)
+           Filts='{"none"}', Ops='{"pub", "rem", "exp", "sexp", "clear"}', Pres=None, N0s='{0}', MaxJumps=0, Contig='FALSE', DropStale='FALSE', view=True, coded=True, sim=False, noinv=False)
     d.update(k)
     if d['Pres'] is None: d['Pres']='{%d}'%d['MaxOps']
     inv='C22Coded' if d['coded'] else 'C22'
     pr='C22RCoded' if d['coded'] else 'C22R'
     s='SPECIFICATION %s\nCONSTANTS\n' % ('SimSpec' if d['sim'] else 'Spec')
     if d['sim']: s+='  WP = 8\n  WD = 8\n  WU = 3\n'
-    for c in ['NK','MaxOps','MaxLag','MaxResub','LiveLimit','Modes','Kinds','Pages','SSizes','Filts','Ops','Pres','N0s','Contig','DropStale']:
+    for c in ['NK','MaxOps','MaxLag','MaxResub','LiveLimit','Modes','Kinds','Pages','SSizes','Filts','Ops','MaxJumps','Pres','N0s','Contig','DropStale']:
         s+='  %s = %s\n'%(c,d[c])
     if d['view']: s+='VIEW View\n'
     s+=('INVARIANTS TypeOK\nCHECK_DEADLOCK FALSE\n' if d['noinv'] else 'INVARIANTS TypeOK %s\nPROPERTIES %s C16M\nCHECK_DEADLOCK FALSE\n'%(inv,pr))
@@ -37,10 +37,14 @@ for nm, ct, ds in (('coded', 'FALSE', 'FALSE'), ('fixed', 'TRUE', 'FALSE'), ('fi
     cfg('thorough_rec_%s.cfg' % nm, Modes='{"rec"}', Kinds=ALLK, MaxOps=3, Filts='{"none", "client"}', Ops=STROPS, N0s='{0, 2}', Contig=ct, DropStale=ds, coded=cd)
     cfg('thorough_per_%s.cfg' % nm, Modes='{"per"}', Kinds=ALLK, MaxOps=3, Filts='{"none"}', Ops=STROPS, N0s='{0, 2}', Contig=ct, DropStale=ds, coded=cd)
     cfg('thorough_filt_%s.cfg' % nm, Modes='{"rec"}', Kinds=ALLK, MaxOps=3, Pages='{1}', Filts=FILT, Ops=STROPS, Contig=ct, DropStale=ds, coded=cd)
+    # ---- out-of-order client moves (LIVE / STREAM request while state pages are pending, LIVE join from any page, STATE page after STREAM pages)
+    cfg('quick_jump_%s.cfg' % nm, Modes='{"rec"}', Kinds='{"fresh"}', MaxOps=2, Pages='{1}', Filts='{"none", "server"}', Ops=STROPS, N0s='{2}', MaxJumps=1, Contig=ct, DropStale=ds, coded=cd)
+    cfg('thorough_jump_%s.cfg' % nm, Modes='{"rec"}', Kinds='{"fresh", "rstream"}', MaxOps=3, Filts='{"none", "server"}', Ops=STROPS, N0s='{2}', MaxJumps=2, Contig=ct, DropStale=ds, coded=cd)
     # ---- simulation (behaviour generators for the replay; no VIEW)
-    cfg('sim_%s.cfg' % nm, Modes='{"eph", "rec", "per"}', Kinds=ALLK, MaxOps=5, Filts=ALLF, Ops=STROPS, Pres='{0, 1}', N0s='{0, 1, 2}', Contig=ct, DropStale=ds, coded=True, view=False, sim=True)
-    cfg('sim_filt_%s.cfg' % nm, Modes='{"eph", "rec", "per"}', Kinds=ALLK, MaxOps=5, Filts=FILT, Ops=STROPS, Pres='{0, 1}', N0s='{0, 1, 2}', Contig=ct, DropStale=ds, coded=True, view=False, sim=True)
+    cfg('sim_%s.cfg' % nm, Modes='{"eph", "rec", "per"}', Kinds=ALLK, MaxOps=5, Filts=ALLF, Ops=STROPS, Pres='{0, 1}', N0s='{0, 1, 2}', MaxJumps=1, Contig=ct, DropStale=ds, coded=True, view=False, sim=True)
+    cfg('sim_filt_%s.cfg' % nm, Modes='{"eph", "rec", "per"}', Kinds=ALLK, MaxOps=5, Filts=FILT, Ops=STROPS, Pres='{0, 1}', N0s='{0, 1, 2}', MaxJumps=1, Contig=ct, DropStale=ds, coded=True, view=False, sim=True)
 cfg('thorough_eph.cfg', Modes='{"eph"}', SSizes='{1}', MaxOps=4, Filts=ALLF, Ops=EPHOPS)
+cfg('thorough_jump_eph.cfg', Modes='{"eph"}', SSizes='{1}', MaxOps=3, Filts=ALLF, Ops=EPHOPS, N0s='{2}', MaxJumps=1)
 # the full property on the code as it is: expected to be violated (documents the findings at model level)
 cfg('full_eph.cfg', Modes='{"eph"}', SSizes='{1}', MaxOps=2, Filts='{"none"}', Ops='{"pub", "rem", "exp"}', coded=False)
 cfg('full_stream_coded.cfg', Modes='{"per"}', Kinds=ALLK, MaxOps=3, Filts='{"none"}', Ops='{"pub", "rem", "sexp"}', Contig='FALSE', coded=False)
